@@ -65,7 +65,7 @@ class C07(Prop):
             'kl_clip=None constructs and gives exactly V (bit-identical). Non-trivial: some step has nu_pred < 0.99 with >= 2 layers, or kl None, or a zero gradient.')
     assumptions = ['V of the unclipped run is bit-identical to the clipped run\'s pre-scaling result (same operations), so only the scalar is under test',
                    'GPT-NeoX share (one quarter of the cases): data 1-2 x model 1-2 on DeepSpeed/Megatron doubles; model >= 2 with active clipping is the open known finding F7']
-    examples = {'quick': 60, 'thorough': 500}
+    examples = {'quick': 120, 'thorough': 500}
     shards = {'quick': 4, 'thorough': 16}
     shrink_budget_s = {'quick': 30.0, 'thorough': 180.0}
     required_labels = {'quick': ['nontrivial=True', 'kl_none=True', 'clip_active=True', 'zero_grad=True', 'multi_rank=True'],
